@@ -303,12 +303,12 @@ def gen_block(r, meth, cmds, styles):
 STYLES = ["huff", "huff", "huff", "extra", "deep", "random", "single"]
 
 
-def gen_ringend(r, meth):
+def gen_ringend(r, meth, exact=False):
     """a copy whose LAST byte lands in the last slot of the history ring (the write position wraps to 0 exactly at the end of the
     command), one byte earlier and one byte later; then a few more bytes and copies that look back across the seam"""
     ob, nc, moc, ring, lhark = FMT[meth]
     cmds, produced = gen_cmds(r, meth, 40, 0, "mixed")
-    delta = r.choice([0, 0, 0, -1, 1])
+    delta = 0 if exact else r.choice([0, 0, 0, -1, 1])          # exact: the run of distance 1 ends in the very last slot (not left to chance)
     turns = r.choice([1, 1, 2]) if ring <= (1 << 16) else 1
     goal = turns * ring + delta
     while produced < goal - 900:
@@ -320,7 +320,7 @@ def gen_ringend(r, meth):
         if goal - n - produced > 300:
             cmds.append("C%d.256" % r.randrange(0, 50)); produced += 256
     n = goal - produced
-    d = r.choice([0, 0, 0, 1, 2, n - 1, n, r.randrange(ring)])
+    d = 0 if exact else r.choice([0, 0, 0, 1, 2, n - 1, n, r.randrange(ring)])
     cmds.append("C%d.%d" % (max(0, min(d, ring - 1)), n)); produced += n
     for _ in range(r.choice([1, 2, 5])):
         cmds.append("L%02x" % r.randrange(256)); produced += 1
@@ -362,6 +362,8 @@ def gen_flat(r, meth):
 def gen_stream(r, meth, size_class="small"):
     """returns (description string, tags)"""
     tags = set()
+    if size_class == "ringend-exact":
+        return gen_ringend(r, meth, exact=True)
     if size_class == "ringend":
         return gen_ringend(r, meth)
     if size_class == "flat":
